@@ -26,13 +26,13 @@ CMP_STEPS = (1, 10, 20)
 
 # ---- tolerances (relative error metric |a-b| / (1 + |a| + |b|)); calibration notes at the bottom of the file
 TOL_DIRECT = 1e-12      # compiled parameters that are copies / frame compositions / unit conversions of the XML numbers
-TOL_DERIVED = 1e-9      # quantities obtained through solves with the inertia matrix (invweight0, acc0, M0, stat)
+TOL_DERIVED = 1e-10     # quantities obtained through solves with the inertia matrix (invweight0, acc0, M0, stat)
 TOL_F32 = 1e-6          # float32 fields
-TOL_EIG = 1e-5          # inertia tensors, max|dI| / max|I|: the compiler diagonalises with a Jacobi iteration that stops
+TOL_EIG = 1e-4          # inertia tensors, max|dI| / max|I|: the compiler diagonalises with a Jacobi iteration that stops
                         # when the remaining rotation has cos > 1 - 1e-12 (user_util.cc kEigEPS), i.e. principal axes are
-                        # only accurate to ~1.5e-6 rad, hence |dI| <~ 3e-6 |I|; worst observed 1.6e-7
-TOL_DERIVED_FUSE = 1e-5 # derived quantities when fusestatic re-diagonalises aggregated inertias (inherits TOL_EIG)
-TRAJ_ATOL = 1e-9        # trajectory: absolute floor ...
+                        # only accurate to ~1.5e-6 rad per Jacobi pair, hence |dI| up to ~1e-5 |I|; worst observed 8.7e-7
+TOL_DERIVED_FUSE = 1e-4 # derived quantities when fusestatic re-diagonalises aggregated inertias (inherits TOL_EIG)
+TRAJ_ATOL = 1e-10       # trajectory: absolute floor ...
 TRAJ_K = 1.0            # ... plus K x (response of the plain model to a 1e-12 perturbation of its state)
 TRAJ_ATOL_FUSE = 1e-7   # fusestatic: the fused inertia is re-diagonalised (relative error up to ~3e-6, see TOL_EIG), i.e. a
 TRAJ_K_FUSE = 3e6       # parameter perturbation ~3e6 times larger than the 1e-12 probe; worst observed ratio diff/resp ~600
@@ -1077,7 +1077,7 @@ def main(ck):
 
   def test(case):
     check_rewrite(ck, lib, case)
-  n = ck.budget(260, 5000)
+  n = ck.budget(260, 4000)
   ck.run_hypothesis(test, gr.rewrite_case(max_bodies=5 if ck.quick else 6), n, name='rewrite')
 
   def probe(case):
@@ -1091,10 +1091,33 @@ def main(ck):
     asan_probe(ck)
   ck.extra['tolerances'] = dict(TOL_DIRECT=TOL_DIRECT, TOL_DERIVED=TOL_DERIVED, TOL_F32=TOL_F32, TRAJ_ATOL=TRAJ_ATOL,
                                 TRAJ_K=TRAJ_K, ILLCOND=ILLCOND)
+  # calibration (unchanged tree, quick tier, seeds 1-5 + thorough): worst passing errors direct 9e-16 (tol 1e-12, design
+  # value), derived 1.6e-13 (tol 1e-10), inertia tensors 8.7e-7 (tol 1e-4, bound from kEigEPS), fused/jitter derived 1e-9
+  # (tol 1e-4, inherits TOL_EIG), trajectories diff/tol <= 1e-2; all 10 mutants of mutants/C36 remain caught.
   ck.extra['max_observed_error'] = {k: dict(err=v[0], field=v[1]) for k, v in STATS.maxerr.items()}
 
 
 LEVEL = 'exploration'
 TECHNIQUE = 'property-based testing: metamorphic relations between MJCF/mjSpec spellings of one abstract model (Hypothesis)'
-LEVEL_TEXT = '''TODO'''
-LEVEL_NOTE = '''TODO'''
+LEVEL_TEXT = '''Generated abstract models (body trees of depth >= 2 with joints, geoms, sites, cameras, inertials, tendons, actuators,
+sensors, replicate and attach nodes) are rendered twice: plainly (quat, radian, explicit attributes, written-out copies,
+inline bodies) and with a Hypothesis-drawn set of rewrites (orientation spelling incl. all 96 universal eulerseq strings,
+degrees, nested default classes / class / childclass on bodies and frames / documented internal defaults / autolimits,
+nested frames incl. joints, <replicate>, <attach> via XML asset and via mjs_attach with an own angle unit in the child,
+fusestatic, discardvisual, sibling order). Both are compiled by the tree; objects are matched by name; every per-object
+model array, options, statistics, tendon paths, actuator targets, sensor objects and inertia tensors are compared, then
+20-step trajectories (body/geom/site/camera poses, sensors, velocities) from the same named state. mj_setConst: eight
+kinds of documented-safe edits applied to the compiled model + mj_setConst are compared field by field (bit-exact) with a
+recompile of the edited XML. Nine genuine defects found this way are excluded by construction from the main stream
+(counted in labels) and re-detected by dedicated probes that report them under a fingerprint only when the compiled model
+matches the exact faulty alternative; every other mismatch is a violation.'''
+LEVEL_NOTE = '''Oracle conversions (euler for intrinsic/extrinsic/mixed sequences, axisangle, xyaxes, zaxis, frame composition,
+replicate accumulation, parallel-axis composition for fused bodies) are an independent numpy implementation written from
+doc/modeling.rst and doc/XMLreference.rst, self-tested at start-up. Not covered: contacts (never occur by construction),
+equality constraints, meshes/hfields/flex, lights, nested replicate, tendons that reference replicated elements, frames
+around the root body of an attached child (undocumented), inertial frames of massless bodies (compiler copies the local
+body pose, no physical meaning), mj_setConst edits of eq_data/hfield_size/dampratio actuators. Inertia tensors are compared
+with 1e-4 relative tolerance because the compiler's Jacobi diagonalisation stops at cos>1-1e-12 (principal axes accurate
+to ~1e-6 rad); cases where the two spellings hit different termination points ("eig jitter") use the looser derived and
+trajectory tolerances. The two memory-safety findings are probed in an ASan subprocess in the thorough tier only. Trusted:
+verification build with third-party shims, ctypes reflection of the tree headers.'''
